@@ -17,6 +17,7 @@
 package roomsim
 
 import (
+	"encoding/json"
 	"context"
 	"fmt"
 	"sort"
@@ -532,13 +533,20 @@ func (f *fed) act(s *fedServer, i int) {
 	// what the invite / restricted-join handshakes add: the signature of the
 	// invited user's server, resp. of the authorising user's server
 	if typ == spec.MRoomMember {
-		if m, ok := content.(map[string]any); ok {
+		// read the content as the verifying side will (encoding/json into the
+		// member struct: names matched case-insensitively, a repeated name by
+		// its last occurrence) - contents may be given as text with such names
+		var m struct {
+			Membership string `json:"membership"`
+			Via        string `json:"join_authorised_via_users_server"`
+		}
+		if json.Unmarshal(ev.Content(), &m) == nil {
 			var also []string
-			if m["membership"] == "invite" && sk != nil {
+			if m.Membership == "invite" && sk != nil {
 				also = append(also, *sk)
 			}
-			if via, ok := m["join_authorised_via_users_server"].(string); ok && m["membership"] == "join" {
-				also = append(also, via)
+			if m.Via != "" && m.Membership == "join" {
+				also = append(also, m.Via)
 			}
 			for _, uid := range also {
 				for _, o := range f.servers {
